@@ -2,6 +2,7 @@ package main
 
 import (
 	"fmt"
+	"go/constant"
 	"os"
 	"go/ast"
 	"go/token"
@@ -218,6 +219,9 @@ func (a *idxAnalyzer) assumeInv(z *zone) {
 		if a.invBad[a.curRecvT.Obj().Name()+"."+p.f+"<="+p.s] {
 			continue
 		}
+		if idxDebug == "inv" && a.final {
+			fmt.Printf("IDXDEBUG inv-assumed %s.%s<=len(%s)\n", a.curRecvT.Obj().Name(), p.f, p.s)
+		}
 		z.add(a.curRecv+"."+p.f, "len("+a.curRecv+"."+p.s+")", 0)
 	}
 }
@@ -399,6 +403,51 @@ func (a *idxAnalyzer) computeInvariants() {
 				a.inv[nt] = append(a.inv[nt], invPair{i.Name(), s.Name()})
 			}
 		}
+	}
+	// base case: a value built by a composite literal starts with whatever the literal says — the invariant
+	// f <= len(s) holds for it only when the literal leaves f zero (or sets it to the constant 0)
+	for _, file := range a.pkg.Syntax {
+		ast.Inspect(file, func(n ast.Node) bool {
+			cl, ok := n.(*ast.CompositeLit)
+			if !ok {
+				return true
+			}
+			nt := namedOf(a.info.TypeOf(cl))
+			if nt == nil || len(a.inv[nt]) == 0 {
+				return true
+			}
+			st, ok := nt.Underlying().(*types.Struct)
+			if !ok {
+				return true
+			}
+			isZero := func(e ast.Expr) bool {
+				tv, ok := a.info.Types[e]
+				if !ok || tv.Value == nil || tv.Value.Kind() != constant.Int {
+					return false
+				}
+				v, exact := constant.Int64Val(tv.Value)
+				return exact && v == 0
+			}
+			for i, el := range cl.Elts {
+				fname, val := "", el
+				if kv, ok := el.(*ast.KeyValueExpr); ok {
+					if id, ok := kv.Key.(*ast.Ident); ok {
+						fname, val = id.Name, kv.Value
+					}
+				} else if i < st.NumFields() {
+					fname = st.Field(i).Name()
+				}
+				if fname == "" || isZero(val) {
+					continue
+				}
+				for _, p := range a.inv[nt] {
+					if p.f == fname {
+						a.invBad[nt.Obj().Name()+"."+p.f+"<="+p.s] = true
+					}
+				}
+			}
+			return true
+		})
 	}
 	// monotone: every write of recv.f in the method is ++ or += (no subtraction), transitively
 	type wr struct{ nonMono map[string]bool }
@@ -707,6 +756,7 @@ func (a *idxAnalyzer) summariseUnit(id types.Object, sig *types.Signature, ft *a
 		return
 	}
 	ps := paramList(ft.Params)
+	a.summarisePredicate(id, sig, ps, body)
 	var named []*ast.Ident
 	if ft.Results != nil {
 		named = paramList(ft.Results)
@@ -952,8 +1002,157 @@ func (a *idxAnalyzer) forwardedFact(z *zone, call *ast.CallExpr, ri int, seqKey 
 	return false
 }
 
+// summarisePredicate: for a function with one boolean result, the length lower bounds of sequences named
+// from a parameter (the parameter itself, a field, a pure getter read) that hold at every return which can
+// answer true, after assuming the returned expression.
+func (a *idxAnalyzer) summarisePredicate(id types.Object, sig *types.Signature, ps []*ast.Ident, body *ast.BlockStmt) {
+	if a.predTrue == nil {
+		a.predTrue = map[types.Object][]predFact{}
+	}
+	delete(a.predTrue, id)
+	if sig.Results().Len() != 1 {
+		return
+	}
+	if b, ok := sig.Results().At(0).Type().Underlying().(*types.Basic); !ok || b.Kind() != types.Bool {
+		return
+	}
+	type cand struct {
+		param  int
+		suffix string
+	}
+	// a parameter the body assigns or takes the address of no longer names the caller's argument
+	reassigned := map[types.Object]bool{}
+	ast.Inspect(body, func(n ast.Node) bool {
+		mark := func(e ast.Expr) {
+			if id, ok := ast.Unparen(e).(*ast.Ident); ok {
+				reassigned[a.info.ObjectOf(id)] = true
+			}
+		}
+		switch x := n.(type) {
+		case *ast.AssignStmt:
+			for _, l := range x.Lhs {
+				mark(l)
+			}
+		case *ast.IncDecStmt:
+			mark(x.X)
+		case *ast.UnaryExpr:
+			if x.Op == token.AND {
+				mark(x.X)
+			}
+		case *ast.RangeStmt:
+			if x.Key != nil {
+				mark(x.Key)
+			}
+			if x.Value != nil {
+				mark(x.Value)
+			}
+		}
+		return true
+	})
+	var best map[cand]int
+	for _, rc := range a.retStates {
+		if len(rc.rs.Results) != 1 {
+			return // named result: not summarised
+		}
+		if tv, ok := a.info.Types[rc.rs.Results[0]]; ok && tv.Value != nil {
+			if tv.Value.Kind() == constant.Bool && !constant.BoolVal(tv.Value) {
+				continue
+			}
+		}
+		z := rc.z.clone()
+		a.refineBool(z, rc.rs.Results[0], true)
+		if z.inconsistent() {
+			continue
+		}
+		if idxDebug != "" && strings.Contains(id.Name(), idxDebug) {
+			fmt.Printf("IDXDEBUG predicate-return %s %s\n   %s\n", id.Name(), exprStr(rc.rs.Results[0]), z.dump())
+		}
+		here := map[cand]int{}
+		for pj, p := range ps {
+			if p == nil {
+				continue
+			}
+			pk, ok := a.termKey(p)
+			if !ok {
+				continue
+			}
+			if reassigned[a.info.Defs[p]] {
+				continue
+			}
+			for _, t := range z.terms() {
+				if !strings.HasPrefix(t, "len("+pk) || !strings.HasSuffix(t, ")") || strings.Contains(t, "+") {
+					continue
+				}
+				suffix := t[len("len(")+len(pk) : len(t)-1]
+				if suffix != "" && suffix[0] != '.' {
+					continue
+				}
+				n := 0
+				for c := 1; c <= 8 && z.le(zeroTerm, t, -c); c++ {
+					n = c
+				}
+				if n > 0 {
+					here[cand{pj, suffix}] = n
+				}
+			}
+		}
+		if best == nil {
+			best = here
+			continue
+		}
+		for k, v := range best {
+			if w, ok := here[k]; !ok {
+				delete(best, k)
+			} else if w < v {
+				best[k] = w
+			}
+		}
+	}
+	var out []predFact
+	for k, v := range best {
+		out = append(out, predFact{param: k.param, suffix: k.suffix, min: v})
+	}
+	sort.Slice(out, func(i, j int) bool {
+		if out[i].param != out[j].param {
+			return out[i].param < out[j].param
+		}
+		return out[i].suffix < out[j].suffix
+	})
+	if idxDebug != "" && strings.Contains(id.Name(), idxDebug) {
+		fmt.Printf("IDXDEBUG predicate-summary %s facts=%+v\n", id.Name(), out)
+	}
+	if len(out) > 0 {
+		a.predTrue[id] = out
+	}
+}
+
+// refineBool assumes a boolean expression outside a branch condition (the flow engine splits those itself):
+// conjunctions when true, disjunctions when false, negation.
+func (a *idxAnalyzer) refineBool(z *zone, e ast.Expr, truth bool) {
+	switch x := ast.Unparen(e).(type) {
+	case *ast.UnaryExpr:
+		if x.Op == token.NOT {
+			a.refineBool(z, x.X, !truth)
+			return
+		}
+	case *ast.BinaryExpr:
+		if (x.Op == token.LAND && truth) || (x.Op == token.LOR && !truth) {
+			a.refineBool(z, x.X, truth)
+			a.refineBool(z, x.Y, truth)
+			return
+		}
+		if x.Op == token.LAND || x.Op == token.LOR {
+			return
+		}
+	}
+	a.refine(z, e, truth)
+}
+
 func (a *idxAnalyzer) retSig() string {
 	var ks []string
+	for id, fs := range a.predTrue {
+		ks = append(ks, fmt.Sprintf("pred:%s@%d:%v", id.Name(), id.Pos(), fs))
+	}
 	for id, fs := range a.retLE {
 		ks = append(ks, fmt.Sprintf("%s@%d:%v", id.Name(), id.Pos(), fs))
 	}
